@@ -536,6 +536,7 @@ pub struct ThirdW<'a> {
     payload: &'a [u8],
     padding: u8,
 }
+pub const RAW_THIRD_PT: u8 = 254;
 pub struct ThirdTy;
 impl RtcpPacket for ThirdTy {
     const MIN_PACKET_LEN: usize = 8;
@@ -547,7 +548,9 @@ impl<'a> RtcpPacketWriter for ThirdW<'a> {
             return Err(RtcpWriteError::CountOutOfRange { count: self.count, max: ThirdTy::MAX_COUNT });
         }
         utils::writer::check_padding(self.padding)?;
-        if self.payload.len() % 4 != 0 {
+        // packet type 254 marks the "raw" flavour of this stub: a third-party writer that does not
+        // insist on 32-bit alignment (the trait does not demand it) and announces an odd size
+        if self.payload.len() % 4 != 0 && self.pt != RAW_THIRD_PT {
             return Err(RtcpWriteError::DataLen32bitMultiple(self.payload.len()));
         }
         Ok(ThirdTy::MIN_PACKET_LEN + self.payload.len() + self.padding as usize)
